@@ -348,8 +348,18 @@ def r07_5(ctx: Ctx) -> None:
     # bind pairs
     for f in (r, ctx.prog.func("archiveinfo", "Folder.prepare_coderinfo")):
         nb = [n for n in walk(f.node) if isinstance(n, ast.Assign) and norm(n.targets[0]) == "num_bindpairs"]
-        ok = bool(nb) and isinstance(nb[0].value, ast.BinOp) and isinstance(nb[0].value.op, ast.Sub) and isinstance(nb[0].value.right, ast.Constant) and nb[0].value.right.value == 1 \
-            and ("out" in norm(nb[0].value.left))
+        cands = [n.value for n in nb]
+        if not cands:
+            # no local of that name: the count stands where the pairs are made - `range(<count>)` of the loop / comprehension that builds Bond(...)
+            for x in walk(f.node):
+                gens = x.generators if isinstance(x, (ast.ListComp, ast.GeneratorExp)) else []
+                its = [g_.iter for g_ in gens] + ([x.iter] if isinstance(x, ast.For) else [])
+                if its and any(isinstance(y, ast.Call) and attr_tail(y) == "Bond" or (isinstance(y, ast.Call) and dotted(y.func) == "Bond") for y in ast.walk(x)):
+                    cands += [it.args[0] for it in its if isinstance(it, ast.Call) and dotted(it.func) == "range" and len(it.args) == 1]
+        ok = False
+        for v in cands:
+            ve = q.expand_locals(f, v)
+            ok = ok or (isinstance(ve, ast.BinOp) and isinstance(ve.op, ast.Sub) and isinstance(ve.right, ast.Constant) and ve.right.value == 1 and "out" in norm(ve.left))
         ctx.check(ok, "R07.5", f, nb[0] if nb else f.node, f"{f.name}: bind pairs = total out streams - 1", f"{f.name}: number of bind pairs is not (total out streams - 1)", construct=f"{f.name} bindpairs")
     # property id order of the section writers
     want = {"PackInfo.write": ["PACK_INFO", "SIZE", "CRC", "END"], "UnpackInfo.write": ["UNPACK_INFO", "FOLDER", "CODERS_UNPACK_SIZE", "END"],
